@@ -172,8 +172,9 @@ int32_t psSignHashRsa(psPool_t *pool,
     else
     {
         *out = sig;
-        *outLen = sigLen;
     }
+    /* The length is reported for a caller-provided buffer as well */
+    *outLen = sigLen;
 
     return PS_SUCCESS;
 }
